@@ -18,9 +18,13 @@ pub enum Leg {
         len_q: (usize, usize),
         len_t: (usize, usize),
     },
+    /// deterministic boundary sweep of the queue differential (enumeration inside the generator)
+    QueueSweep { jmax_q: usize, jmax_t: usize },
 }
 
 pub struct PropSpec {
+    /// below this many distinct non-trivial cases the run is reported inconclusive (exit 2)
+    pub min_nontrivial: usize,
     pub id: &'static str,
     pub legs: Vec<Leg>,
     pub rule: &'static str,
@@ -35,7 +39,7 @@ const A_TIMERS: &[&str] = &[
 ];
 
 pub fn is_pbt_engine(e: &str) -> bool {
-    matches!(e, "timers" | "scenario")
+    matches!(e, "timers" | "scenario" | "queues")
 }
 
 fn timers_leg(focus: &'static str, quick: u32, thorough: u32) -> Leg {
@@ -52,34 +56,60 @@ fn timers_leg(focus: &'static str, quick: u32, thorough: u32) -> Leg {
 pub fn all() -> Vec<PropSpec> {
     vec![
         PropSpec {
+            min_nontrivial: 1000,
             id: "C07",
             legs: vec![timers_leg("C07", 2_000_000, 60_000_000)],
             rule: "cases are byte strings decoded into timer histories (add/after/max/min add, upd, del, active, run, next_* from top level, main-queue items and timer callbacks); non-trivial = history contains a successful update of a Min/Max timer, or an expiry within 2 resolution steps of a run instant or of the creation time, or a run jumping >= 32767 s with a timer pending; distinct = distinct byte strings (FNV-1a hash)",
             assumptions: A_TIMERS.to_vec(),
         },
         PropSpec {
+            min_nontrivial: 1000,
             id: "C08",
             legs: vec![timers_leg("C08", 2_000_000, 60_000_000)],
             rule: "timer histories weighted towards Min/Max updates and large jumps; non-trivial = a Min/Max timer was successfully updated to an instant at/before the current time, or (updated at a sub-tick offset and beyond 9 h), or a single run spanned >= 2 re-queue periods (65534 s) with timers pending; distinct = distinct byte strings",
             assumptions: A_TIMERS.to_vec(),
         },
         PropSpec {
+            min_nontrivial: 1000,
             id: "C09",
             legs: vec![timers_leg("C09", 2_000_000, 60_000_000)],
             rule: "timer histories with next_expiry() checked after every operation and next_wait/next_wait_max with generated now/maxdur/pending; every history ends with the drain loop `while let Some(e) = next_expiry() { run(e) }` under an iteration budget; non-trivial = the earliest deadline belonged to an updated Min/Max timer at some check, or a delete removed the earliest deadline, or the set mixed >= 2 timer kinds; distinct = distinct byte strings",
             assumptions: A_TIMERS.to_vec(),
         },
         PropSpec {
+            min_nontrivial: 1000,
             id: "C10",
             legs: vec![timers_leg("C10", 2_000_000, 60_000_000)],
             rule: "timer histories where any key ever issued (and the Default key of each kind) may be used at any time; non-trivial = a key was used after its timer fired/was deleted and after >= 2 slots had been freed and another timer created since, or a Default key was used while a timer was pending; distinct = distinct byte strings",
             assumptions: A_TIMERS.to_vec(),
         },
         PropSpec {
+            min_nontrivial: 1000,
             id: "C19",
             legs: vec![timers_leg("C19", 2_000_000, 60_000_000)],
             rule: "timer histories weighted towards bursts of fixed timers (timer_add/after) sharing or nearly sharing instants, expired by single runs; non-trivial = some run fired >= 3 short fixed timers with >= 2 deadlines >= 2 steps apart and >= 2 given the identical instant; distinct = distinct byte strings",
             assumptions: A_TIMERS.to_vec(),
+        },
+        PropSpec {
+            min_nontrivial: 1000,
+            id: "C17",
+            legs: vec![
+                Leg::QueueSweep { jmax_q: 2, jmax_t: 4 },
+                Leg::Pbt {
+                    engine: "queues",
+                    focus: "C17",
+                    quick: 1_500_000,
+                    thorough: 12_000_000,
+                    len_q: (0, 300),
+                    len_t: (0, 1500),
+                },
+            ],
+            rule: "leg 1 (sweep, enumerated): for each growth level j (capacity 1 KiB << j), every residual fill level at 8-byte granularity within 4352 bytes of the boundary, every one of 183 closure shapes (sizes 0..4096 x alignments 1..128, dense around powers of two) and both endings (execute / drop), the same operations are applied to flat.rs and boxed.rs compiled side by side and the event logs compared; leg 2 (proptest): byte strings decoded into sequences of push/push_box/fill/execute/is_empty/drop over 1-4 queues per implementation, closures that push onto other queues while executing (chains up to depth 3), padding allocations to move buffer addresses; non-trivial = crosses a growth boundary with a probe of alignment >= 16 or size >= 1 KiB, or drops a queue holding a chained old buffer; distinct = distinct sweep points / distinct byte strings",
+            assumptions: vec![
+                "flat.rs and boxed.rs are compiled straight from /repo/src/queue by #[path] into the harness crate (both files are self-contained); debug assertions and overflow checks are on",
+                "captured data is a byte pattern derived from the closure id; a closure that runs or is dropped verifies it, and the whole event log (run/drop/is_empty with a hash of the captured bytes) must be identical between the two implementations",
+                "trusted: rustc/std, proptest, the boxed queue as reference (it is 47 lines over Vec<Box<dyn FnOnce>>)",
+            ],
         },
     ]
 }
@@ -99,6 +129,11 @@ pub fn describe_leg(leg: &Leg, thorough: bool) -> Value {
             "focus": focus,
             "cases_requested": if thorough { *th } else { *quick },
             "byte_length_range": if thorough { [len_t.0, len_t.1] } else { [len_q.0, len_q.1] },
+        }),
+        Leg::QueueSweep { jmax_q, jmax_t } => json!({
+            "kind": "deterministic boundary sweep (enumeration), sharded over worker processes",
+            "growth_levels": if thorough { *jmax_t } else { *jmax_q },
+            "shapes": vcore::shapes::SHAPES.len(),
         }),
     }
 }
@@ -122,6 +157,7 @@ pub fn run_leg(prop: &str, idx: usize, leg: &Leg, thorough: bool, deadline: Inst
             if thorough { *len_t } else { *len_q },
             deadline,
         ),
+        Leg::QueueSweep { jmax_q, jmax_t } => run_sweep(prop, idx, if thorough { *jmax_t } else { *jmax_q }, deadline),
     }
 }
 
@@ -191,7 +227,155 @@ pub fn run_findings(prop: &str) -> (Vec<String>, Vec<(String, String)>, usize) {
     (known, viol, n)
 }
 
-pub fn replay_special(_engine: &str, _v: &Value, _path: &Path, _verbose: bool) -> i32 {
-    eprintln!("no special replay for this engine yet");
-    2
+pub fn replay_special(engine: &str, v: &Value, path: &Path, _verbose: bool) -> i32 {
+    match engine {
+        "queue-sweep" => {
+            let g = |k: &str| v[k].as_u64().unwrap() as usize;
+            match vcore::queues::sweep_point(g("j"), g("k"), g("shape"), g("tail")) {
+                Ok(_) => {
+                    println!("replay: flat and boxed queues agree on this sweep point");
+                    0
+                }
+                Err(m) => {
+                    println!("  [sweep-diverge] {}", m);
+                    println!("VIOLATION property=C17 replay={}", path.display());
+                    1
+                }
+            }
+        }
+        _ => {
+            eprintln!("no special replay for engine {}", engine);
+            2
+        }
+    }
+}
+
+pub fn sweep_worker(a: &[String]) -> i32 {
+    // jmax part parts outfile
+    let jmax: usize = a[0].parse().unwrap();
+    let part: usize = a[1].parse().unwrap();
+    let parts: usize = a[2].parse().unwrap();
+    let mut rep = vcore::CaseReport::default();
+    use std::io::{Seek, SeekFrom, Write};
+    let mut inf = fs::File::create(format!("{}.inflight", a[3])).unwrap();
+    let (n, nt) = vcore::queues::sweep(jmax, part, parts, &mut rep, |j, k, s, t| {
+        let _ = inf.seek(SeekFrom::Start(0));
+        let _ = inf.write_all(format!("{:4} {:8} {:4} {:2}\n", j, k, s, t).as_bytes());
+    });
+    let mut out = json!({"evaluations": n, "nontrivial": nt});
+    let mut code = 0;
+    if let Some(v) = rep.violations.first() {
+        // trace line: "sweep j=.. k=.. shape=.. tail=.."
+        let t = rep.trace.last().cloned().unwrap_or_default();
+        let num = |key: &str| -> u64 {
+            t.split_whitespace()
+                .find_map(|w| w.strip_prefix(key).and_then(|x| x.parse().ok()))
+                .unwrap_or(0)
+        };
+        let dir = Path::new(VERIF).join("evidence/replays");
+        fs::create_dir_all(&dir).unwrap();
+        let path = dir.join(format!(
+            "C17-sweep-j{}-k{}-s{}-t{}.json",
+            num("j="), num("k="), num("shape="), num("tail=")
+        ));
+        fs::write(
+            &path,
+            serde_json::to_vec_pretty(&json!({
+                "property": "C17", "engine": "queue-sweep",
+                "j": num("j="), "k": num("k="), "shape": num("shape="), "tail": num("tail="),
+                "message": v.msg,
+            }))
+            .unwrap(),
+        )
+        .unwrap();
+        out["violation"] = json!({"replay": path.to_string_lossy(), "message": v.msg});
+        code = 1;
+    }
+    fs::write(&a[3], serde_json::to_vec(&out).unwrap()).unwrap();
+    code
+}
+
+fn run_sweep(prop: &str, idx: usize, jmax: usize, deadline: Instant) -> LegResult {
+    let nw = crate::nworkers() as usize;
+    let outdir = Path::new(VERIF).join(format!("build/work/{}-{}", prop, idx));
+    let _ = fs::remove_dir_all(&outdir);
+    fs::create_dir_all(&outdir).unwrap();
+    let exe = std::env::current_exe().unwrap();
+    let mut kids = Vec::new();
+    for w in 0..nw {
+        let out = outdir.join(format!("s{}.json", w));
+        let child = Command::new(&exe)
+            .args(["sweep", &jmax.to_string(), &w.to_string(), &nw.to_string(), out.to_str().unwrap()])
+            .stdout(std::process::Stdio::null())
+            .stderr(std::process::Stdio::null())
+            .spawn()
+            .unwrap();
+        kids.push((out, child));
+    }
+    let mut res = LegResult::new();
+    let mut base = 0u64;
+    for (out, mut child) in kids {
+        let st = loop {
+            match child.try_wait().unwrap() {
+                Some(st) => break Some(st),
+                None => {
+                    if Instant::now() > deadline {
+                        let _ = child.kill();
+                        let _ = child.wait();
+                        break None;
+                    }
+                    std::thread::sleep(std::time::Duration::from_millis(20));
+                }
+            }
+        };
+        match (st, fs::read(&out)) {
+            (Some(_), Ok(b)) => {
+                let v: Value = serde_json::from_slice(&b).unwrap();
+                let n = v["evaluations"].as_u64().unwrap_or(0);
+                let nt = v["nontrivial"].as_u64().unwrap_or(0);
+                res.evaluations += n;
+                // sweep points are distinct by construction; give them distinct hash values
+                for i in 0..nt {
+                    res.nt.insert(0x5EE9_0000_0000_0000u64 ^ (base + i));
+                }
+                base += 1 << 32;
+                if let Some(x) = v.get("violation") {
+                    res.violations.push((
+                        x["replay"].as_str().unwrap().to_string(),
+                        x["message"].as_str().unwrap().to_string(),
+                    ));
+                }
+            }
+            (None, _) => res.inconclusive.push("sweep worker exceeded the watchdog".into()),
+            (Some(st), Err(_)) => {
+                // crashed inside a sweep point: re-run that point in a fresh process
+                let inf = fs::read_to_string(format!("{}.inflight", out.display())).unwrap_or_default();
+                let nums: Vec<u64> = inf.split_whitespace().filter_map(|x| x.parse().ok()).collect();
+                if nums.len() == 4 {
+                    let dir = Path::new(VERIF).join("evidence/replays");
+                    fs::create_dir_all(&dir).unwrap();
+                    let path = dir.join(format!("C17-sweep-j{}-k{}-s{}-t{}.json", nums[0], nums[1], nums[2], nums[3]));
+                    fs::write(&path, serde_json::to_vec_pretty(&json!({
+                        "property": "C17", "engine": "queue-sweep", "crash": true,
+                        "j": nums[0], "k": nums[1], "shape": nums[2], "tail": nums[3],
+                        "message": format!("process died ({:?}) while executing this sweep point", st),
+                    })).unwrap()).unwrap();
+                    let st2 = Command::new(&exe).args(["replay", path.to_str().unwrap()])
+                        .env("VERIF_NO_ISOLATE", "1")
+                        .stdout(std::process::Stdio::null()).stderr(std::process::Stdio::null()).status().unwrap();
+                    if st2.code() != Some(0) {
+                        res.violations.push((path.to_string_lossy().to_string(),
+                            format!("process died ({:?}) while executing sweep point j={} k={} shape={} tail={} (reproduced: {:?})", st, nums[0], nums[1], nums[2], nums[3], st2)));
+                    } else {
+                        res.inconclusive.push(format!("sweep worker died ({:?}) but the in-flight point did not reproduce", st));
+                    }
+                } else {
+                    res.inconclusive.push(format!("sweep worker died without a report: {:?}", st));
+                }
+            }
+        }
+    }
+    res.samples.push(json!({"sweep_point": "growth level 1 (capacity 2048), 250 zero-capture closures queued, probe closure size 2040 align 8, then execute"}));
+    res.extra.insert("sweep_points".into(), json!(res.evaluations));
+    res
 }
